@@ -127,6 +127,15 @@ class VParam(Value):
         self.const = const
 
 
+class VInstanceState(Value):
+    """an attribute of a construct object that the real __init__ assigns but no contract declares: state kept on the instance.
+    Nothing is known about it; a store through it is a store into the construct (C17 frame)"""
+    kind = 'instance-state'
+
+    def __init__(self, cls, attr):
+        self.cls, self.attr = cls, attr
+
+
 class VFunc(Value):
     """closure / lambda / bound method / builtin known by name"""
     kind = 'func'
